@@ -403,8 +403,12 @@ impl Profile {
                 if let Some(nl) = names.last() {
                     bad.push(s(nl.clone(), &[], &[], 3, vec![]));
                 }
-                for b in bad {
-                    out.push((b, true));
+                // a rejected call is caught by the harness; the sequence may go on (one rejection per sequence)
+                let already_rejected = (0..prefix.len()).any(|k| crate::inv::ill_formed(prefix, k).is_some());
+                if !already_rejected {
+                    for b in bad {
+                        out.push((b, false));
+                    }
                 }
             }
         }
@@ -585,7 +589,7 @@ impl<'a> Worker<'a> {
         if !all_calls_ok(&obs) {
             self.stats.ill_formed_states += 1;
         }
-        if terminal || prefix.len() >= self.run.depth || !all_calls_ok(&obs) {
+        if terminal || prefix.len() >= self.run.depth || !(all_calls_ok(&obs) || (self.run.props.continue_after_reject && crate::inv::only_expected_rejections(ops, &obs))) {
             return;
         }
         for (op, term) in self.run.profile.children(prefix) {
@@ -638,7 +642,7 @@ pub fn run_profile(run: &E1Run) -> E1Result {
         if let Some(l) = &obs.layout {
             w.layouts.insert(hash_state(&ops, l));
         }
-        if terminal || !all_calls_ok(&obs) {
+        if terminal || !(all_calls_ok(&obs) || (w.run.props.continue_after_reject && crate::inv::only_expected_rejections(&ops, &obs))) {
             return;
         }
         for (op, term) in w.run.profile.children(prefix) {
@@ -939,6 +943,50 @@ pub fn c19_check(ops: &[Op], l: &crate::hsys::Layout, nmaps: usize) -> (u64, Vec
         if names.len() >= 2 {
             let nn = names.clone();
             cmp("names rotated among the systems", "plan-depends-on-names", &map_names(ops, &|s| nn[(nn.iter().position(|x| x == s).unwrap_or(0) + 1) % nn.len()].clone()), &idm, &mut n, &mut vs);
+        }
+    }
+    // (i-b) the empty name is a name too: give every unnamed system a fresh name; un-name every system
+    //       that nobody depends on
+    {
+        let mut k = 0;
+        let named: Vec<Op> = ops
+            .iter()
+            .map(|o| match o {
+                Op::Sys(x) if x.name.is_empty() => {
+                    k += 1;
+                    Op::Sys(SysSpec { name: format!("fresh-{}", k), ..x.clone() })
+                }
+                Op::Batch(b) if b.name.is_empty() => {
+                    k += 1;
+                    Op::Batch(BatchSpec { name: format!("fresh-{}", k), ..b.clone() })
+                }
+                x => x.clone(),
+            })
+            .collect();
+        if k > 0 {
+            cmp("unnamed systems given fresh names", "plan-depends-on-names", &named, &idm, &mut n, &mut vs);
+        }
+        let depended: Vec<String> = ops
+            .iter()
+            .flat_map(|o| match o {
+                Op::Sys(x) => x.deps.clone(),
+                Op::Batch(b) => b.deps.clone(),
+                _ => vec![],
+            })
+            .collect();
+        let mut changed = false;
+        let unnamed: Vec<Op> = ops
+            .iter()
+            .map(|o| match o {
+                Op::Sys(x) if !x.name.is_empty() && !depended.contains(&x.name) => {
+                    changed = true;
+                    Op::Sys(SysSpec { name: String::new(), ..x.clone() })
+                }
+                x => x.clone(),
+            })
+            .collect();
+        if changed {
+            cmp("systems nobody depends on registered with the empty name", "plan-depends-on-names", &unnamed, &idm, &mut n, &mut vs);
         }
     }
     // (iii) permutations / duplications of each system's declared lists
